@@ -1256,6 +1256,11 @@ TRANSLATED = [
     'pyramid/config/tweens.py:Tweens.__call__',
     'pyramid/config/views.py:ViewsConfiguratorMixin._apply_view_derivers',
 ]
+try:                                   # the directive translator (argument processing of add_view_deriver / _add_tween)
+    from .translate_args import TRANSLATED as _ARGS_TRANSLATED
+except ImportError:                    # run as a script
+    from translate_args import TRANSLATED as _ARGS_TRANSLATED
+TRANSLATED = TRANSLATED + list(_ARGS_TRANSLATED)
 GEN_NAMES = ['gen_remove', 'gen_add', 'gen_sorted', 'gen_tw_add_explicit', 'gen_tw_add_implicit', 'gen_tw_implicit',
              'gen_tw_call', 'gen_apply_view_derivers']
 
